@@ -136,7 +136,7 @@ fn gen_cases(cfg: &Cfg) -> Vec<Kind> {
             }
         }
     }
-    let nt = cfg.tier.pick(3_000u64, 100_000);
+    let nt = cfg.tier.pick(3_000u64, 400_000);
     for i in 0..nt {
         let mut r = Rng::for_case(cfg.seed, "C08-transfer", i);
         let chunks = 1 + r.usize(8);
